@@ -12,6 +12,7 @@ the formula grammar of Model/Formula.lean with structured operands —
               | name selector {selector}                     subscript := ":" | expression
                   selector := "[" subscript {"," subscript} "]" | "{" subscript {"," subscript} "}"
                             | "." name | "." integer | "." name "," name {"," name}   (a swizzle)
+              | "|" field {" " field} "|" row "|" {row "|"}     field := name kind     (a table literal)
               | "(" formula ")" | "-" factor | "!" factor,   each optionally followed by "'"
   statement  := ["~"] name [kind] ":=" expression
               | name {selector} ("=" | "+=" | "-=" | …) expression
@@ -30,7 +31,7 @@ open MechVerif.Prec
 inductive Tok where
   | lit (n : Nat) | id (n : Nat)
   | lp | rp | lb | rb | lc | rc
-  | comma | semi | sp | colon | dot | swz
+  | comma | semi | sp | colon | dot | swz | bar
   | dots (incl : Bool)
   | op (o : Op) | dash | bang | quote
   | tilde | define | assign | opAssign (k : Nat) | kind (n : Nat) | nl
@@ -82,6 +83,7 @@ inductive Fac where
   | set (es : List (Ex Fac))
   | recd (bs : List (Bind Fac))
   | map (ms : List (Mapping Fac))
+  | tbl (hdr : List (Nat × Nat)) (rows : List (List (Ex Fac)))
   | slice (x : Nat) (sels : List (Sel Fac))
   | paren (t : Tree Fac)
   | neg (f : Fac)
@@ -134,6 +136,17 @@ def many {α : Type} (p : List Tok → Option (α × List Tok)) : Nat → List T
     | none => ([], ts)
     | some (a, r) => (a :: (many p k r).1, (many p k r).2)
 
+/-- a field of a table header: name and kind annotation -/
+def pField : List Tok → Option ((Nat × Nat) × List Tok)
+  | .id x :: .kind k :: r => some ((x, k), r)
+  | _ => none
+
+/-- a row of a table: cells, then the bar that closes the row -/
+def rowOf {α : Type} (p : List Tok → Option (α × List Tok)) (ts : List Tok) : Option (List α × List Tok) :=
+  match sepBy p .sp ts.length ts with
+  | some (cells, .bar :: r) => some (cells, r)
+  | _ => none
+
 def pName : List Tok → Option (Nat × List Tok)
   | .id y :: r => some (y, r)
   | _ => none
@@ -148,8 +161,13 @@ def listTill {α : Type} (p : List Tok → Option (α × List Tok)) (sep close :
      | _ => none)
   | [] => none
 
-/-! the literal between braces: `structure` tries record, then map, then set; a record is a list of bindings
-    (`name [kind] : e`), a map a list of `e : e`, a set a list of `e`.  The entries are read once and classified. -/
+/-! the literal between braces: `structure` tries `empty_set` (`{}`), `empty_map` (`{:}`), then `record`, `map`, `set`;
+    a record is a list of bindings (`name [kind] : e`), a map a list of `e : e`, a set a list of `e`, each closed by
+    `}`.  The model reads the entries once and classifies them, which decides every text as the backtracking does:
+    `record` succeeds exactly when every entry is a binding; otherwise (`many1(binding)` stopped early and `}` did
+    not follow) `map` succeeds exactly when every entry is `e : e` — a binding without a kind annotation is also such an
+    entry, its key the bare name, one with a kind annotation is not in this sublanguage; otherwise `set` succeeds exactly
+    when no entry has a colon; mixed texts fail in all three. -/
 
 def allBind : List (Ent Fac) → Option (List (Bind Fac))
   | [] => some []
@@ -201,6 +219,13 @@ def pFac (g : Gram) : Nat → List Tok → Option (Fac × List Tok)
       (match listTill (fun ts => sepBy (pEx g n) .sp ts.length ts) .semi .rb r with
        | some (rows, r') => some (post (.mat rows) r')
        | none => none)
+    | .bar :: r =>
+      (match sepBy pField .sp r.length r with
+       | some (hdr, .bar :: r1) =>
+         (match many (rowOf (pEx g n)) r1.length r1 with
+          | ([], _) => none
+          | (rows, r2) => some (post (.tbl hdr rows) r2))
+       | _ => none)
     | .lc :: .colon :: .rc :: r => some (post (.map []) r)
     | .lc :: r =>
       (match listTill (pEnt g n) .comma .rc r with
@@ -361,6 +386,7 @@ def rFac (g : Gram) : Fac → List Tok
   | .set es => .lc :: rExs g es ++ [.rc]
   | .recd bs => .lc :: rBinds g bs ++ [.rc]
   | .map ms => .lc :: (if ms.isEmpty then [.colon] else rMaps g ms) ++ [.rc]
+  | .tbl hdr rows => .bar :: rSep (fun f => [.id f.1, .kind f.2]) .sp hdr ++ .bar :: rTRows g rows
   | .slice x sels => .id x :: rSels g sels
   | .paren t => .lp :: rTrm g t ++ [.rp]
   | .neg f => .dash :: rFac g f
@@ -385,6 +411,9 @@ def rRows (g : Gram) : List (List Exp) → List Tok
   | [] => []
   | [r] => rRow g r
   | r :: r' :: rs => rRow g r ++ .semi :: rRows g (r' :: rs)
+def rTRows (g : Gram) : List (List Exp) → List Tok
+  | [] => []
+  | r :: rs => rRow g r ++ .bar :: rTRows g rs
 def rSub (g : Gram) : Sub Fac → List Tok
   | .all => [.colon]
   | .ex e => rEx g e
